@@ -16,6 +16,10 @@ import Bee2V.C05.ModelRed
 import Bee2V.C05.ModelEtc
 import Bee2V.C05.ModelPpMul
 import Bee2V.C05.ModelPpRed
+import Bee2V.C05.ModelMisc
+import Bee2V.C05.ModelGf2
+import Bee2V.C05.ModelZm
+import Bee2V.C05.ModelPpDiv
 namespace Bee2V.C05.Drv
 open Bee2V.Proto Bee2V.C05 Bee2V.C05.Spec
 
@@ -134,12 +138,12 @@ def gf2Op (W m f no : Nat) (op : String) (args : List String) : String :=
     if o.length != no then none else
     let v := leNat o
     -- gf2From: wwFrom, then gf2IsIn: deg < m (for m % W = 0 every n-word value is in)
-    if m % W = 0 ∨ v < f then (if v < 2 ^ (W * n) then some v else none) else none
+    if m % W = 0 ∨ v < 2 ^ m then (if v < 2 ^ (W * n) then some v else none) else none
   match op, args with
   | "unity", [] => ho no 1
   | "from", [a] =>
     match parseHex a with
-    | some o => let v := leNat o; if (m % W = 0 ∨ v < f) then join ["1", hw W n v, ho no v] else "0"
+    | some o => let v := leNat o; if (m % W = 0 ∨ v < 2 ^ m) then join ["1", hw W n v, ho no v] else "0"
     | none => "bad-op"
   | "add", [a, b] => match el a, el b with | some a, some b => res (a ^^^ b) | _, _ => "not-in"
   | "sub", [a, b] => match el a, el b with | some a, some b => res (a ^^^ b) | _, _ => "not-in"
@@ -566,6 +570,31 @@ def modelW (W : Nat) (f : String) (args : List String) : Option String :=
   | "zzRedCrand", [a, m] => do
     let a ← wl W a; let m ← wl W m
     some (join [hl W (zzRedCrand_safe W a m), hl W (zzRedCrand_fast W a m)])
+  -- ModelMisc (NAF, random residues from a tape, Add3, modular products, lcm, coprimality)
+  | "wwNAF", [a, w] => do
+    let (n, a) ← pw W a; let w ← nat w
+    let r := wwNAFV W a w
+    some (join [toString r.1, hw W (2 * n + 1) r.2])
+  | "zzRandMod", [m, tape] => do
+    let (n, m) ← pw W m; let t ← parseHex tape
+    let r := zzRandModV m (t.map (·.toNat)) false
+    some (match r.1 with | some v => join ["1", hw W n v, toString r.2] | none => join ["0", toString r.2])
+  | "zzRandNZMod", [m, tape] => do
+    let (n, m) ← pw W m; let t ← parseHex tape
+    let r := zzRandModV m (t.map (·.toNat)) true
+    some (match r.1 with | some v => join ["1", hw W n v, toString r.2] | none => join ["0", toString r.2])
+  | "zzAdd3", [_, a, b] => do let a ← wl W a; let b ← wl W b; some (pr (zzAdd3 W a b))
+  | "zzMulMod", [pat, a, b, m] => do
+    let a ← wl W a; let b ← wl W b; let m ← wl W m
+    some (hl W (zzMulMod W a (if pat == "ab" || pat == "cab" then a else b) m))
+  | "zzSqrMod", [_, a, m] => do let a ← wl W a; let m ← wl W m; some (hl W (zzSqrMod W a m))
+  | "zzMulWMod", [_, a, x, m] => do let a ← wl W a; let x ← nat x; let m ← wl W m; some (hl W (zzMulWMod W a x m))
+  | "zzRed", [a, m] => do let a ← wl W a; let m ← wl W m; some (hl W (zzRed W a m))
+  | "zzLCM", [a, b] => do let (n, a) ← pw W a; let (m, b) ← pw W b; some (hw W (n + m) (zzLCMV a b))
+  | "zzIsCoprime", [a, b] => do let (_, a) ← pw W a; let (_, b) ← pw W b; some (b01 (zzIsCoprimeV a b))
+  -- ModelGf2 (irreducibility test, minimal polynomial; value level)
+  | "ppIsIrred", [a] => do let (_, a) ← pw W a; some (b01 (ppIsIrredV a))
+  | "ppMinPoly", [a, l] => do let (_, a) ← pw W a; let l ← nat l; some (hw W ((l + 1 + W - 1) / W) (ppMinPolyV a l))
   -- ModelEtc (square root, Jacobi symbol, sliding-window powers, zmCreate strategy; value level)
   | "zzSqrt", [a] => do
     let (n, a) ← pw W a
@@ -595,6 +624,30 @@ def modelW (W : Nat) (f : String) (args : List String) : Option String :=
         let back := if k == .mont then zmToMontV W n m (wordNegInvV W (m % 2 ^ W)) raw else raw
         some (join [toString n, toString no, "1", hw W n raw, ho no back])
       else some (join [toString n, toString no, "0"])
+  | "zm", kind :: pat :: mo :: op :: rest => do
+    -- the qr_o operation tables of zm.c per ring kind (ModelZm, value level)
+    if !(["add", "sub", "neg", "mul", "sqr", "inv", "div"].contains op) then none else
+    let mo ← parseHex mo
+    let no := mo.length
+    let n := (no + W / 8 - 1) / (W / 8)
+    let m := leNat mo
+    let k : Option ZmKind := match kind with
+      | "plain" => some .plain | "crand" => some .crand | "barr" => some .barr | "mont" => some .mont
+      | "auto" => some (zmKind W (mo.map (·.toNat)))
+      | "gfp" => if no = 0 ∨ (mo.headD 0).toNat % 2 = 0 ∨ (no = 1 ∧ mo.headD 0 == 1) then none else some (zmKind W (mo.map (·.toNat)))
+      | _ => none
+    let k ← k
+    let el (s : String) : Option Nat := do
+      let o ← parseHex s
+      if o.length != no then none else zmFromV k W n m (leNat o)
+    let x ← rest.head?.bind el
+    let y ← if op == "neg" || op == "sqr" || op == "inv" then some x else
+      (if (pat == "ab" || pat == "cab") && op != "div" then some x else (rest.drop 1).head?.bind el)
+    let r := match op with
+      | "add" => zmAddV k m x y | "sub" => zmSubV k m x y | "neg" => zmNegV k m x
+      | "mul" => zmMulV k W n m x y | "sqr" => zmSqrV k W n m x
+      | "inv" => zmInvV k W n m x | _ => zmDivV k W n m x y
+    some (join [toString n, toString no, hw W n r, ho no (zmToV k W n m r)])
   -- ModelRed (Crandall-Montgomery and Barrett reductions, word lists)
   | "zzRedCrandMont", [a, m] => do
     let a ← wl W a; let m ← wl W m
@@ -631,6 +684,27 @@ def modelW (W : Nat) (f : String) (args : List String) : Option String :=
   | "ppAddMulW", [_, b, a, x] => do let b ← wl W b; let a ← wl W a; let x ← nat x; some (pr (ppAddMulW W b a x))
   | "ppMul", [_, a, b] => do let a ← wl W a; let b ← wl W b; some (hl W (ppMul W a b))
   | "ppSqr", [a] => do let a ← wl W a; some (hl W (ppSqr W a))
+  -- ModelPpDiv (table-driven polynomial division; word lists)
+  | "ppDiv", [_, a, b] => do
+    let a ← wl W a; let b ← wl W b
+    let r := ppDiv W a b
+    some (join [hl W r.1, hl W r.2])
+  | "ppMod", [_, a, b] => do let a ← wl W a; let b ← wl W b; some (hl W (ppMod W a b))
+  | "ppRed", [a, m] => do let a ← wl W a; let m ← wl W m; some (hl W (ppMod W a m))
+  -- ModelBits, second part: comparison with a word, copies, octet load / store
+  | "wwCmpW", [a, x] => do let a ← wl W a; let x ← nat x; some (join [toString (wwCmpW_safe W a x), toString (wwCmpW_fast W a x)])
+  | "wwXor", [pat, a, b] => do
+    let a ← wl W a; let b ← wl W b
+    some (hl W (wwXor a (if pat == "ab" || pat == "cab" then a else b)))
+  | "wwXor2", [pat, b, a] => do let b ← wl W b; let a ← wl W a; some (hl W (wwXor2 b (if pat == "ab" then b else a)))
+  | "wwCopy", [_, a] => do let a ← wl W a; some (hl W (wwCopy a))
+  | "wwSwap", [a, b] => do let a ← wl W a; let b ← wl W b; let r := wwSwap a b; some (join [hl W r.1, hl W r.2])
+  | "wwSetW", [n, x] => do let n ← nat n; let x ← nat x; some (hl W (wwSetW (List.replicate n 0) x))
+  | "wwRepW", [n, x] => do let n ← nat n; let x ← nat x; some (hl W (wwRepW (List.replicate n 0) x))
+  | "wwFromTo", [h] => do
+    let o ← parseHex h
+    let ws := wwFrom W (o.map (·.toNat))
+    some (join (ws.map toString ++ [toHex ((wwTo W o.length ws).map (fun v => UInt8.ofNat v))]))
   -- ModelPpRed (reductions modulo trinomials / pentanomials / the belt polynomial; word lists)
   | "ppRedTrinomial", [a, m, k] => do let a ← wl W a; let m ← nat m; let k ← nat k; some (hl W (ppRedTrinomial W a m k))
   | "ppRedPentanomial", [a, m, k, l, l1] => do
@@ -641,7 +715,7 @@ def modelW (W : Nat) (f : String) (args : List String) : Option String :=
   -- static reduction selected by gf2Create (Trinomial0 when (m - k) % W = 0, else Trinomial1; Pentanomial)
   | "gf2", m :: k :: l :: l1 :: pat :: op :: rest => do
     let m ← nat m; let k ← nat k; let l ← nat l; let l1 ← nat l1
-    if op != "mul" && op != "sqr" then none else
+    if op != "mul" && op != "sqr" && op != "tr" && op != "qsolve" then none else
     let okd :=
       if k = 0 then false
       else if l = 0 then l1 = 0 && !(m % 8 = 0 || k ≥ m || m - k < W)
@@ -654,8 +728,14 @@ def modelW (W : Nat) (f : String) (args : List String) : Option String :=
       let o ← parseHex s
       if o.length != no then none else
       let v := leNat o
-      if (m % W = 0 ∨ v < f) ∧ v < 2 ^ (W * n) then some (toWords W n v) else none
+      if (m % W = 0 ∨ v < 2 ^ m) ∧ v < 2 ^ (W * n) then some (toWords W n v) else none
     let a ← rest.head?.bind el
+    if op == "tr" then some (join [toString n, toString no, b01 (gf2TrV f m (val W a))]) else
+    if op == "qsolve" then
+      let b ← (rest.drop 1).head?.bind el
+      some (join [toString n, toString no, match gf2QSolveV f m (val W a) (val W b) with
+        | some x => join ["1", ho no x] | none => "0"])
+    else
     let b ← if op == "sqr" then some a else
       (if pat == "ab" || pat == "cab" then some a else (rest.drop 1).head?.bind el)
     let prod := if op == "sqr" then ppSqr W a else ppMul W a b
